@@ -152,6 +152,31 @@ def check(cx):
                                 for s in bb["stmts"]:
                                     if s["dst"] == [al] and any(isinstance(pe, str) and pe.startswith(".flush_queue:") for pe in (s["rv"].get("p") or [])[1:]):
                                         guards_fq = True
+        # ... and only while no data block is open: a record that opened the first data block must not be followed by a
+        # smaller one going back into block zero
+        guards_cb = False
+        for t in hdr_push:
+            for c in fp.calls():
+                if not (c.callee.endswith("Option::<T>::is_none") or c.callee.endswith("Option::<T>::is_some")) or c.term["to"] is None:
+                    continue
+                al = op_local(c.args[0])
+                on_cb = any(s_["dst"] == [al] and any(isinstance(pe, str) and pe.startswith(".current_block:") for pe in (s_["rv"].get("p") or [])[1:])
+                            for bb in fp.blocks for s_ in bb["stmts"])
+                tb = fp.blocks[c.term["to"]]["term"]
+                if on_cb and tb["t"] == "switch" and op_local(tb["o"]) == c.dst[0] and fp.dominates(c.term["to"], t.bb):
+                    # the placement must sit on the arm where the test says "no current block"
+                    none_val = 1 if c.callee.endswith("is_none") else 0
+                    arm = tb["otherwise"] if none_val == 1 else [tg for v, tg in tb["targets"] if v == 0][0]
+                    if fp.dominates(arm, t.bb):
+                        guards_cb = True
+            for bi, adt, m, oth, src in enum_switches(p, fp):
+                if adt == "std::option::Option" and any(isinstance(pe, str) and pe.startswith(".current_block:") for pe in src[1:]) and "None" in m \
+                        and fp.dominates(m["None"], t.bb):
+                    guards_cb = True
+        cx.verdict(bool(hdr_push) and guards_cb, r3, "block-zero-only-without-open-block", fp.where(),
+                   "block-zero placement only while current_block is None",
+                   "push can place a record in block zero although a data block is already open: a small record appended after a "
+                   "larger one that opened the first data block is read back before it")
         cx.verdict(bool(hdr_push) and guards_fb and guards_fq, r3, "block-zero-only-while-last", fp.where(),
                    "block-zero placement guarded by flushed_blocks and flush_queue",
                    "push places a record in block zero without testing whether later blocks exist: records are read back "
